@@ -32,7 +32,7 @@ h_findeol(void)
 
 	__CPROVER_assume(objlen <= HTTP_N && off <= objlen && len <= objlen - off);
 	IN_BYTES(obj, objlen, HTTP_N);
-	g_http_fe_i = gi; IN(size_t, gj); g_http_fe_j = gj;
+	g_http_i = gi;
 
 	r = findeol(obj + off, len);
 
@@ -41,5 +41,6 @@ h_findeol(void)
 	VCOVER(r == len && len > 3 && off + len == objlen);	/* not found */
 	VCOVER(r == len && len == 0);
 	VCOVER(r == len && len == 1);
-	VCOVER(r + 2 == len && gi < r && gi + 2 <= len && gj < gi);
+	VCOVER(r + 2 == len && gi < r && gi + 2 <= len);
+	__CPROVER_assert(!(gi < r && gi + 2 <= len) || !(obj[off + gi] == '\r' && obj[off + gi + 1] == '\n'), "no EOL before the returned position");
 }
